@@ -417,7 +417,8 @@ class Twin(object):
             known = KNOWN_KINDS["zero-write"]
         agree = self.compare(kind, args, a, b, known=known)
         if b[0] == "ok" and b[1][0]:
-            self.complete[key] = data
+            # what the share really holds (an accepted "conflicting" chunk on unwritten ground is part of it)
+            self.complete[key] = self.B.get_buckets(si)[sh].read(0, size)
             self.writersB.pop(key, None)
             self.writersA.pop(key, None)
         # a refused body of more than one piece: the earlier pieces stay written on the HTTP side only
